@@ -314,6 +314,16 @@ func (p *Peer) ReadIndex(ctx pb.SystemCtx) error {
 	})
 }
 
+// WitnessIDs appends the replica IDs of the witnesses of the shard to buf and
+// returns it.
+func (p *Peer) WitnessIDs(buf []uint64) []uint64 {
+	buf = buf[:0]
+	for id := range p.raft.witnesses {
+		buf = append(buf, id)
+	}
+	return buf
+}
+
 // NotifyRaftLastApplied passes on the lastApplied index confirmed by the RSM to
 // the raft state machine.
 func (p *Peer) NotifyRaftLastApplied(lastApplied uint64) {
